@@ -373,9 +373,14 @@ func c05outageFds(w *W, ci int, dir string, restore bool) (string, string) {
 	if err := ap.Start(); err != nil {
 		return "start: " + err.Error(), "start"
 	}
+	nw := 0
+	written := map[string]bool{}
 	write := func(d time.Duration) {
 		for t0 := time.Now(); time.Since(t0) < d; {
-			ap.Write([]byte("id-o1-1 line\n"))
+			nw++
+			id := fmt.Sprintf("id-o%dx%d-%d", ci, nw%7, nw)
+			ap.Write([]byte(id + " line\n"))
+			written[id] = true
 			time.Sleep(2 * time.Millisecond)
 		}
 	}
@@ -393,6 +398,36 @@ func c05outageFds(w *W, ci int, dir string, restore bool) (string, string) {
 	fds := append(fdsInto(dir), fdsInto(away)...)
 	if len(fds) != 0 {
 		return fmt.Sprintf("descriptors of the stopped appender are still open after rotations failed (directory away, restored=%v): %v", restore, fds), "fd-leak-after-failed-rotation"
+	}
+	// everything written before Stop is readable from the files (they are in `away` if never restored)
+	got := idsIn(append(readDirAll(dir), readDirAll(away)...))
+	for id := range written {
+		if got[id] != 1 {
+			return fmt.Sprintf("%s was written before Stop but is in the files %d times (rotations failed across two boundaries, restored=%v; %d of %d present)", id, got[id], restore, len(got), len(written)), "lost-after-failed-rotations"
+		}
+	}
+	return "", ""
+}
+
+// c05startFailure: a RollingFileLogger whose Start fails half-way (files opened, inner async logger refuses its
+// buffer size) is stopped: nothing may stay open.
+func c05startFailure(dir string) (string, string) {
+	_ = os.RemoveAll(dir)
+	_ = os.MkdirAll(dir, 0755)
+	for _, sep := range []bool{false, true} {
+		l := &log.RollingFileLogger{LoggerBase: log.LoggerBase{Name: "sf", Level: log.LevelRange{MinLevel: log.NoneLevel, MaxLevel: log.MaxLevel}}, FileDir: dir, FileName: "sf.log",
+			Rotation: log.TimeRotation{Interval: time.Hour}, MaxAge: 1, Separate: sep, AsyncWrite: true, BufferSize: 50, BufferFullPolicy: log.BufferFullPolicyBlock}
+		err := l.Start()
+		if err == nil {
+			l.Stop()
+			continue // a buffer of 50 was accepted: nothing to observe here
+		}
+		if pv, _ := catch(l.Stop); pv != nil {
+			return fmt.Sprintf("Stop after a failed Start panicked: %v", pv), "stop-after-failed-start-panics"
+		}
+		if fds := fdsInto(dir); len(fds) != 0 {
+			return fmt.Sprintf("Start failed (%v) after the files had been opened, Stop was called, but descriptors remain: %v", err, fds), "fd-leak-after-failed-start"
+		}
 	}
 	return "", ""
 }
@@ -566,6 +601,12 @@ func c05Worker(w *W) {
 			w.Sample(map[string]any{"scenario": "rotator stalled 1.4 intervals at " + point + ", overtaken by the next rotation"})
 		}
 	case "doublestop":
+		if d, cls := c05startFailure(filepath.Join(dir, "sf")); d != "" {
+			w.Violate("C05:rolling:"+cls, d, map[string]any{"scenario": "RollingFileLogger.Start fails half-way, then Stop"})
+		} else {
+			w.Distinct("start-failure-then-stop")
+		}
+		w.Eval(1)
 		mk := map[string]func() log.Appender{
 			"Discard": func() log.Appender { return &log.DiscardAppender{} },
 			"Console": func() log.Appender { return &log.ConsoleAppender{Layout: &log.TextLayout{}} },
